@@ -101,3 +101,42 @@ package types
 //@   assigns self.open
 //@   ensures result1 == nil ==> self.open
 //@   ensures result1 != nil ==> self.open == old(self.open)
+
+// ---------------------------------------------------------------------------
+// SegmentWriter / SegmentReader as the WAL sees them. Ghost view of a tail
+// writer: base (its BaseIndex), last (highest committed index, 0 when empty),
+// sealed/indexStart. segment.Writer is proved against the same facts
+// (OffsetForFrame, LastIndex, Sealed, Append contracts in package segment).
+// ---------------------------------------------------------------------------
+
+//@ interface SegmentWriter.LastIndex
+//@   ensures result == self.last
+
+//@ -- a tail writer only knows the index range it has committed: [base, last]
+//@ interface SegmentWriter.GetLog
+//@   ensures result1 == nil ==> result0 != nil && self.last != 0 && self.base <= idx && idx <= self.last
+//@   ensures !(self.last != 0 && self.base <= idx && idx <= self.last) ==> result1 == raft.ErrLogNotFound
+
+//@ interface SegmentReader.GetLog
+//@   ensures result1 == nil ==> result0 != nil
+
+//@ interface SegmentWriter.Sealed
+//@   ensures result2 == nil ==> (result0 <==> self.sealed) && (result0 ==> result1 == self.indexStart)
+
+//@ interface SegmentWriter.Append
+//@   assigns self.last, self.sealed, self.indexStart
+//@   ensures result != nil ==> self.last == old(self.last) && self.sealed == old(self.sealed)
+//@   ensures old(self.sealed) ==> result != nil
+//@   ensures result == nil && len(entries) > 0 ==> self.last == entries[len(entries)-1].Index
+
+//@ interface SegmentWriter.ForceSeal
+//@   assigns self.sealed, self.indexStart
+//@   ensures result1 == nil ==> self.sealed && result0 == self.indexStart
+//@   ensures result1 != nil ==> self.sealed == old(self.sealed) || self.sealed
+
+//@ interface SegmentWriter.Close
+//@   assigns self.closed
+//@   ensures self.closed
+//@ interface SegmentReader.Close
+//@   assigns self.closed
+//@   ensures self.closed
